@@ -5,13 +5,16 @@
 import Stef.Driver.Core
 import Stef.Driver.Bits
 import Stef.Driver.Chunk
+import Stef.Driver.Spec
 
 open Stef.Driver
 
 def mkHandlers : IO (List (List String × Handler)) := do
   let bits ← mkHandler ({} : Bits.St) Bits.step
   let chunk ← mkHandler ({} : Chunk.St) Chunk.step
+  let spec ← mkHandler ({} : SpecD.St) SpecD.step
   pure [
+    (["sd"], spec),
     (["bw", "br"], bits),
     (["ca", "cw"], chunk)
   ]
